@@ -56,6 +56,8 @@ func (q sreqCase) pathMethod() (string, string) {
 		return "Fn", "mul"
 	case "funcp": // a registered function whose argument / reply types are pooled (implement Reset)
 		return "FnP", "mul"
+	case "funcv": // a registered function that takes its argument by value
+		return "FnV", "mul"
 	case "router":
 		return "Rt", "mul"
 	case "nosvc":
@@ -77,7 +79,7 @@ func (q sreqCase) target() string {
 	switch q.style {
 	case "method", "pooled", "pooledv":
 		return "method"
-	case "func", "funcp":
+	case "func", "funcp", "funcv":
 		return "func"
 	case "router":
 		return "router"
@@ -191,7 +193,7 @@ func (q sreqCase) modelTok(rid int) string {
 		h = "f900"
 	}
 	// reflected handlers set one response metadata entry (trace-id) for even request ids, before doing anything else
-	rm := rid%2 == 0 && (q.style == "method" || q.style == "pooled" || q.style == "pooledv" || q.style == "func" || q.style == "funcp")
+	rm := rid%2 == 0 && (q.style == "method" || q.style == "pooled" || q.style == "pooledv" || q.style == "func" || q.style == "funcp" || q.style == "funcv")
 	return fmt.Sprintf("R:%d:%d:%d:%s:%s:%d:%s:%s:%s:%s:%s:%s:%d:%s", q.conn, rid, q.seq, path, meth, q.ser, b(q.hb), b(q.ow),
 		q.target(), b(q.ser == 1), b(dec), h, q.a*q.effB(), b(rm))
 }
@@ -1263,7 +1265,7 @@ func genSreq(prop string, r *common.Rand, nconn int) sreqCase {
 	if r.Chance(20) {
 		q.seq = r.U64()
 	}
-	q.style = []string{"method", "method", "pooled", "pooled", "pooledv", "func", "funcp", "router", "nosvc", "nometh", "nomethqf", "nomethqm", "nomethe"}[r.Intn(13)]
+	q.style = []string{"method", "method", "pooled", "pooled", "pooledv", "func", "funcp", "funcv", "router", "nosvc", "nometh", "nomethqf", "nomethqm", "nomethe"}[r.Intn(14)]
 	failP := 25
 	if prop == "C07" {
 		failP = 60
@@ -1282,7 +1284,7 @@ func genSreq(prop string, r *common.Rand, nconn int) sreqCase {
 			q.style = []string{"nosvc", "nometh"}[r.Intn(2)]
 		}
 	}
-	if q.mode == "ok" && r.Chance(12) && (q.style == "method" || q.style == "pooled" || q.style == "pooledv" || q.style == "func" || q.style == "funcp") {
+	if q.mode == "ok" && r.Chance(12) && (q.style == "method" || q.style == "pooled" || q.style == "pooledv" || q.style == "func" || q.style == "funcp" || q.style == "funcv") {
 		q.mode = "veto"
 	}
 	if r.Chance(25) {
@@ -1463,7 +1465,7 @@ func runSrv(prop string, r *common.Rand, tier string, o *common.Out, replay stri
 		// systematic matrix: every dispatch style x every way a request can end x one-way / two-way, each followed by
 		// an ordinary request on the same connection (what a one-way request must NOT produce is a frame)
 		k := 0
-		for _, style := range []string{"method", "pooled", "pooledv", "func", "funcp", "router", "nosvc", "nometh", "nomethqf", "nomethqm", "nomethe"} {
+		for _, style := range []string{"method", "pooled", "pooledv", "func", "funcp", "funcv", "router", "nosvc", "nometh", "nomethqf", "nomethqm", "nomethe"} {
 			for _, end := range []string{"ok", "err", "panic", "longpanic", "veto", "badjson", "nobody", "ser9", "limit", "auth"} {
 				for _, ow := range []bool{false, true} {
 					if end == "veto" && (style == "router" || style == "nosvc" || strings.HasPrefix(style, "nometh")) {
